@@ -396,6 +396,10 @@ func (s *Sim) byzPropose(b *Byz, target *kit.Node, rs *cstypes.RoundState, late 
 		rule := ""
 		if b.Strat == "invalid-proposer" {
 			rule = invalidRules[s.tape.Draw(len(invalidRules))]
+		} else if b.Strat != "lock-bait" && b.Strat != "late-proposer" && s.cfg.InvalidHeavy && s.tape.Chance(1, 2) {
+			// runs that concentrate on what correct validators vote for: every second Byzantine proposal
+			// breaks one validity rule
+			rule = invalidRules[s.tape.Draw(len(invalidRules))]
 		} else if b.Strat != "lock-bait" && b.Strat != "late-proposer" && s.tape.Chance(1, 3) {
 			// whatever its strategy (bar the two whose proposals have to be acceptable), a Byzantine proposer takes the opportunities the run offers: abuse of
 			// the evidence list once there is evidence around, a block of an earlier height that the
@@ -407,9 +411,9 @@ func (s *Sim) byzPropose(b *Byz, target *kit.Node, rs *cstypes.RoundState, late 
 			if len(s.oldUncommitted(h)) > 0 {
 				opp = append(opp, "old-uncommitted-block", "old-uncommitted-block")
 			}
-			if len(opp) > 0 {
-				rule = opp[s.tape.Draw(len(opp))]
-			}
+			// ... and any single broken validity rule, now and then
+			opp = append(opp, invalidRules[s.tape.Draw(len(invalidRules))], "")
+			rule = opp[s.tape.Draw(len(opp))]
 		}
 		blk := s.craftBlock(b, target, rs, st, variant, rule)
 		if blk == nil {
